@@ -15,6 +15,7 @@ from fractions import Fraction
 from .. import astutil as A
 from ..guards import Unsupported
 from ..loader import AnalysisError
+from ..report import NotShown
 from ..shadow import Cell, ListRep, Obj, Shadow
 from ..terms import Atoms, Rat
 from .common import DS, PL_MOD, short
@@ -145,7 +146,7 @@ def step_arithmetic(ctx, rep, rule: str) -> None:
     try:
         sh.run(up, {"masked_blocked_search_directions": ListRep(dc)}, selfo)
     except Unsupported as u:
-        raise AnalysisError(f"{rule}: Distributor.update_params outside the sub-language: {u}") from u
+        raise NotShown(rule, f"interpretable:Distributor.update_params", "", f"Distributor.update_params cannot be compared with the documented recurrence: it uses a construct the term interpreter does not model ({u}) — the documented computation has no such step") from u
     ok = wc.v == Rat.sym(atoms, "w") + Rat.sym(atoms, "d") and dc.v == Rat.sym(atoms, "d")
     rep.ob(rule, "parameters-move-by-the-update", ok, up.loc(), f"Distributor.update_params: W <- `{wc.v}` (documented W + update)", sample=True)
 
@@ -175,7 +176,7 @@ def adagrad_arithmetic(ctx, rep, rule: str) -> None:
         try:
             sh.run(up, {"masked_grad_list": ListRep(g), "step": Cell(Rat.sym(atoms, "step"))}, selfo)
         except Unsupported as u:
-            raise AnalysisError(f"{rule}: AdagradPreconditionerList.update_preconditioners outside the sub-language: {u}") from u
+            raise NotShown(rule, f"interpretable:AdagradPreconditionerList.update_preconditioners", "", f"AdagradPreconditionerList.update_preconditioners cannot be compared with the documented recurrence: it uses a construct the term interpreter does not model ({u}) — the documented computation has no such step") from u
         S = lambda s: Rat.sym(atoms, s)  # noqa: E731
         one = Rat.const(atoms, 1)
         want_v = S("v") + S("g") * S("g") if b2 == 1.0 else S("beta2") * S("v") + (one - S("beta2")) * S("g") * S("g")
@@ -194,7 +195,7 @@ def adagrad_arithmetic(ctx, rep, rule: str) -> None:
         try:
             out = sh2.run(pre, {"masked_grad_list": ListRep(g2)}, self2)
         except Unsupported as u:
-            raise AnalysisError(f"{rule}: AdagradPreconditionerList.precondition outside the sub-language: {u}") from u
+            raise NotShown(rule, f"interpretable:AdagradPreconditionerList.precondition", "", f"AdagradPreconditionerList.precondition cannot be compared with the documented recurrence: it uses a construct the term interpreter does not model ({u}) — the documented computation has no such step") from u
         S2 = lambda s: Rat.sym(atoms2, s)  # noqa: E731
         want = S2("g") / ((S2("v") / S2("bc2")).sqrt() + S2("eps"))
         _cmp(rep, rule, "", "", sh2.rat(out.elem) if isinstance(out, ListRep) else None, want, "preconditioned gradient", case, bad)
@@ -223,7 +224,7 @@ def factor_arithmetic(ctx, rep, rule: str) -> None:
         try:
             sh.run(fi, {"masked_grad_list": ListRep(g)}, selfo)
         except Unsupported as u:
-            raise AnalysisError(f"{rule}: _update_factor_matrices outside the sub-language: {u}") from u
+            raise NotShown(rule, f"interpretable:_update_factor_matrices", "", f"_update_factor_matrices cannot be compared with the documented recurrence: it uses a construct the term interpreter does not model ({u}) — the documented computation has no such step") from u
         S = lambda s: Rat.sym(atoms, s)  # noqa: E731
         T = Rat.app(atoms, "tensordot", (S("g"), S("g")))
         want = S("L") + T if b2 == 1.0 else S("beta2") * S("L") + (Rat.const(atoms, 1) - S("beta2")) * T
@@ -330,7 +331,7 @@ def inverse_root_wiring(ctx, rep, rule: str) -> None:
         try:
             sh.run(fi, {}, selfo)
         except Unsupported as u:
-            raise AnalysisError(f"{rule}: ShampooPreconditionerList._amortized_computation outside the sub-language: {u}") from u
+            raise NotShown(rule, f"interpretable:ShampooPreconditionerList._amortized_computation", "", f"ShampooPreconditionerList._amortized_computation cannot be compared with the documented recurrence: it uses a construct the term interpreter does not model ({u}) — the documented computation has no such step") from u
         S = lambda s: Rat.sym(atoms, s)  # noqa: E731
         root = S("root") if mult is None else S("root") / S("mult")
         want = Rat.app(atoms, "matrix_inverse_root", (S("L") / S("bc2"), root, S("eps")))
@@ -370,7 +371,7 @@ def soap_arithmetic(ctx, rep, rule: str) -> None:
         try:
             sh.run(up, {"masked_grad_list": ListRep(g)}, selfo)
         except Unsupported as u:
-            raise AnalysisError(f"{rule}: _update_eigenvalue_corrections outside the sub-language: {u}") from u
+            raise NotShown(rule, f"interpretable:_update_eigenvalue_corrections", "", f"_update_eigenvalue_corrections cannot be compared with the documented recurrence: it uses a construct the term interpreter does not model ({u}) — the documented computation has no such step") from u
         S = lambda s: Rat.sym(atoms, s)  # noqa: E731
         r = Rat.app(atoms, "rotate", (S("g"),)) if basis else S("g")
         want = S("c") + r * r if b2 == 1.0 else S("beta2") * S("c") + (Rat.const(atoms, 1) - S("beta2")) * r * r
@@ -387,7 +388,7 @@ def soap_arithmetic(ctx, rep, rule: str) -> None:
         try:
             out = sh2.run(pre, {"masked_grad_list": ListRep(g2)}, self2)
         except Unsupported as u:
-            raise AnalysisError(f"{rule}: EigenvalueCorrected precondition outside the sub-language: {u}") from u
+            raise NotShown(rule, f"interpretable:EigenvalueCorrected precondition", "", f"EigenvalueCorrected precondition cannot be compared with the documented recurrence: it uses a construct the term interpreter does not model ({u}) — the documented computation has no such step") from u
         S2 = lambda s: Rat.sym(atoms2, s)  # noqa: E731
         denom = Rat.app(atoms2, "pow", (S2("c") / S2("bc2") + S2("eps"), 1 / S2("root")))
         inner = (Rat.app(atoms2, "rotate", (S2("g"),)) if basis else S2("g")) / denom
@@ -445,7 +446,7 @@ def qr_iteration_arithmetic(ctx, rep, rule: str) -> None:
     try:
         out = sh.run(fi, {"A": Acell, "eigenvectors_estimate": Q0, "max_iterations": Rat.sym(atoms, "max_iter"), "tolerance": Rat.sym(atoms, "tol")})
     except Unsupported as u:
-        raise AnalysisError(f"{rule}: _compute_orthogonal_iterations outside the sub-language: {u}") from u
+        raise NotShown(rule, f"interpretable:_compute_orthogonal_iterations", "", f"_compute_orthogonal_iterations cannot be compared with the documented recurrence: it uses a construct the term interpreter does not model ({u}) — the documented computation has no such step") from u
     S = lambda n: Rat.sym(atoms, n)  # noqa: E731
     Qn = Rat.app(atoms, "qr.Q", (Rat.app(atoms, "matmul", (S("A"), S("Q"))),))
     ray = Rat.app(atoms, "einsum", (Qn, S("A"), Qn), key="ij, ik, kj -> j")
@@ -466,7 +467,7 @@ def qr_iteration_arithmetic(ctx, rep, rule: str) -> None:
                 want_e = Rat.app(atoms2, "norm", (Rat.sym(atoms2, "Qprev") - Rat.sym(atoms2, "Qnew"),)) / Rat.app(atoms2, "norm", (Rat.sym(atoms2, "Qprev"),))
                 _cmp(rep, rule, "", "", sh2.rat(e), want_e, "relative change used by the stopping rule", {}, bad)
             except Unsupported as u:
-                raise AnalysisError(f"{rule}: error expression outside the sub-language: {u}") from u
+                raise NotShown(rule, f"interpretable:error expression", "", f"error expression cannot be compared with the documented recurrence: it uses a construct the term interpreter does not model ({u}) — the documented computation has no such step") from u
         # loop condition
         cond_bad = []
         for it_, mx, er, tol in itertools.product([0, 1, 2], [1, 2], [0.0, 0.5, 1.0], [0.5]):
@@ -506,7 +507,7 @@ def newton_arithmetic(ctx, rep, rule: str) -> None:
     try:
         out = sh.run(fi, {"A": Cell(Rat.sym(atoms, "A")), "root": Rat.sym(atoms, "p"), "epsilon": Rat.sym(atoms, "eps"), "max_iterations": Rat.sym(atoms, "max_iter"), "tolerance": Rat.sym(atoms, "tol")})
     except Unsupported as u:
-        raise AnalysisError(f"{rule}: _matrix_inverse_root_newton outside the sub-language: {u}") from u
+        raise NotShown(rule, f"interpretable:_matrix_inverse_root_newton", "", f"_matrix_inverse_root_newton cannot be compared with the documented recurrence: it uses a construct the term interpreter does not model ({u}) — the documented computation has no such step") from u
     S = lambda n: Rat.sym(atoms, n)  # noqa: E731
     one = Rat.const(atoms, 1)
     Ar = S("A") + S("eps") * S("I")
@@ -564,7 +565,7 @@ def eigen_root_arithmetic(ctx, rep, rule: str) -> None:
         try:
             out = sh.run(fi, {"A": Cell(Rat.sym(atoms, "A")), "root": Rat.sym(atoms, "root"), "epsilon": Rat.sym(atoms, "eps"), "retry_double_precision": True, "eigen_decomp_offload_device": "", "enhance_stability": enh})
         except Unsupported as u:
-            raise AnalysisError(f"{rule}: _matrix_inverse_root_eigen outside the sub-language: {u}") from u
+            raise NotShown(rule, f"interpretable:_matrix_inverse_root_eigen", "", f"_matrix_inverse_root_eigen cannot be compared with the documented recurrence: it uses a construct the term interpreter does not model ({u}) — the documented computation has no such step") from u
         S = lambda x: Rat.sym(atoms, x)  # noqa: E731
         mn = Rat.app(atoms, "min", (S("L"),))
         zero = Rat.const(atoms, 0)
@@ -589,7 +590,7 @@ def eigen_root_arithmetic(ctx, rep, rule: str) -> None:
         try:
             out = sh.run(fd, {"A": Cell(Rat.sym(atoms, "A")), "root": Rat.sym(atoms, "root"), "epsilon": Rat.sym(atoms, "eps")})
         except Unsupported as u:
-            raise AnalysisError(f"{rule}: {name} outside the sub-language: {u}") from u
+            raise NotShown(rule, f"interpretable:{name}", "", f"{name} cannot be compared with the documented recurrence: it uses a construct the term interpreter does not model ({u}) — the documented computation has no such step") from u
         S = lambda x: Rat.sym(atoms, x)  # noqa: E731
         want = Rat.app(atoms, "diag", (Rat.app(atoms, "pow", (Rat.app(atoms, "diagonal", (S("A"),)) + S("eps"), Rat.const(atoms, -1) / S("root"))),))
         ok = isinstance(out, Cell) and out.v == want
@@ -605,5 +606,5 @@ def eigen_root_arithmetic(ctx, rep, rule: str) -> None:
             want = Rat.app(atoms, "pow", (Rat.sym(atoms, "A") + Rat.sym(atoms, "eps"), Rat.const(atoms, -1) / Rat.sym(atoms, "root")))
             ok = sh.rat(v) == want
         except Unsupported as u:
-            raise AnalysisError(f"{rule}: scalar fast path outside the sub-language: {u}") from u
+            raise NotShown(rule, f"interpretable:scalar fast path", "", f"scalar fast path cannot be compared with the documented recurrence: it uses a construct the term interpreter does not model ({u}) — the documented computation has no such step") from u
     rep.ob(rule, "scalar-fast-path-formula", ok, mi.loc(first) if first is not None else mi.loc(), "1-element input: (A + eps)^(-1/root)", sample=True)
